@@ -207,7 +207,10 @@ def run_cases(
     """Run `cases` (dicts with unique 'id') through `binary mode`, sharded over processes.
     A process that dies is attributed to the first started-but-unfinished case; that case is
     re-run alone to confirm, and the rest of the shard continues in a new process."""
-    opts = opts or {}
+    opts = dict(opts or {})
+    # wall-clock watchdog inside the runner: a case that takes this long ends the process and is re-run alone
+    # (never a verdict by itself; without it a hanging case blocks its shard until the shard timeout)
+    opts.setdefault("case_timeout_s", "600")
     shards = shards or min(NCPU, max(1, len(cases) // 8))
     wd = workdir(name)
     batch = Batch()
